@@ -690,6 +690,10 @@ func (ex *Exec) execInstr(fr *frame, in ssa.Instruction) {
 	case *ssa.Go:
 		fnv, args := ex.prepareCall(fr, &i.Call)
 		ex.spawn(func() { ex.callAny(fnv, args) })
+	case *ssa.Range:
+		fr.env[i] = &rangeIter{x: ex.get(fr, i.X)}
+	case *ssa.Next:
+		fr.env[i] = ex.rangeNext(ex.get(fr, i.Iter).(*rangeIter), i.IsString)
 	case *ssa.DebugRef:
 	default:
 		panic(unsupported(fmt.Sprintf("instruction %T in %s", in, fr.fn)))
@@ -1189,6 +1193,13 @@ func (ex *Exec) convert(v Value, from, to types.Type) Value {
 		}
 	}
 	if b, ok := to.Underlying().(*types.Basic); ok && b.Info()&types.IsString != 0 {
+		if t, ok := v.(*Term); ok && sortOf(from) > 0 {
+			// string(rune): UTF-8 encoding of a code point
+			if !t.IsConst() {
+				panic(unsupported("string(rune) of a symbolic value"))
+			}
+			return ex.strConst(string(rune(int32(t.val))))
+		}
 		if s, ok := v.(Slice); ok {
 			return ex.sliceToStr(s)
 		}
@@ -1724,4 +1735,78 @@ func mergeable(t types.Type) bool {
 	}
 	_, ok := t.Underlying().(*types.Pointer)
 	return ok
+}
+
+
+// rangeIter is the iterator of a `for range` over a string or a map.
+type rangeIter struct {
+	x   Value
+	pos int
+}
+
+func (ex *Exec) rangeNext(it *rangeIter, isString bool) Value {
+	if isString {
+		var bs []*Term
+		switch x := it.x.(type) {
+		case Str:
+			bs = x.b
+		case Rope:
+			bs = ex.pathTerms(x)
+		default:
+			panic(unsupported(fmt.Sprintf("range over %T", it.x)))
+		}
+		if it.pos >= len(bs) {
+			return Tuple{ex.ts.F, ex.ts.Const(64, 0), ex.ts.Const(32, 0)}
+		}
+		start := it.pos
+		b0 := bs[start]
+		if !b0.IsConst() {
+			// a symbolic byte: an ASCII character or (as in Go) an invalid byte decoding to U+FFFD, both one byte wide
+			it.pos++
+			r := ex.ts.Ite(ex.ts.Bin(OpULt, b0, ex.ts.Const(8, 0x80)), ex.ts.ZExt(b0, 32), ex.ts.Const(32, 0xFFFD))
+			return Tuple{ex.ts.T, ex.ts.Const(64, uint64(start)), r}
+		}
+		c := byte(b0.val)
+		need, r := 0, rune(c)
+		switch {
+		case c < 0x80:
+		case c&0xE0 == 0xC0:
+			need, r = 1, rune(c&0x1F)
+		case c&0xF0 == 0xE0:
+			need, r = 2, rune(c&0x0F)
+		case c&0xF8 == 0xF0:
+			need, r = 3, rune(c&0x07)
+		default:
+			r = 0xFFFD
+		}
+		okSeq := start+need < len(bs)+0 && need > 0
+		if need > 0 {
+			for k := 1; k <= need; k++ {
+				if start+k >= len(bs) || !bs[start+k].IsConst() || byte(bs[start+k].val)&0xC0 != 0x80 {
+					okSeq = false
+					break
+				}
+				r = r<<6 | rune(byte(bs[start+k].val)&0x3F)
+			}
+			if !okSeq {
+				r, need = 0xFFFD, 0
+			}
+		}
+		it.pos = start + 1 + need
+		return Tuple{ex.ts.T, ex.ts.Const(64, uint64(start)), ex.ts.Const(32, uint64(r))}
+	}
+	m, ok := it.x.(*MapObj)
+	if !ok {
+		panic(unsupported(fmt.Sprintf("range over %T", it.x)))
+	}
+	if m == nil || it.pos >= len(m.ents) {
+		var kz, vz Value = ex.ts.Const(64, 0), ex.ts.Const(64, 0)
+		if m != nil {
+			kz, vz = ex.zero(m.keyT), ex.zero(m.elemT)
+		}
+		return Tuple{ex.ts.F, kz, vz}
+	}
+	e := m.ents[it.pos]
+	it.pos++
+	return Tuple{ex.ts.T, e.k, e.v}
 }
